@@ -7,6 +7,7 @@
   `Tu.Align` (edit scripts with their cost), Lemmas/EditL.lean.
 -/
 import TuModel.Lemmas.EditTable
+import TuModel.Lemmas.EditScript
 namespace Tu.C12
 open Tu
 
@@ -131,5 +132,48 @@ example : editDistance { swap := true, sid := false } [[97], [98]] [[98], [97]] 
 example : editDistance { swap := false, sid := false } [[97], [98]] [[98], [97]] = 2 := by decide
 example : editOperations { swap := true, sid := false } [[97], [98], [99]] [[98], [97], [99]] = some [(.swap, 0, 0)] := by decide
 example : Align { swap := true, sid := false } [[98], [97]] [[97], [98]] 1 := .swp rfl rfl .nil
+
+/-- **operations() is a minimal script**: the backtrace never reaches its panic branch, the script has
+exactly `distance` operations, is sorted by position, and applying it to `a` yields `b` -/
+theorem editOperations_ok (fl : EFlags) (a b : List (List Nat)) :
+    ∃ ops, editOperations fl a b = some ops ∧
+      ops.length = editDistance fl a b ∧
+      applyScript a b ops 0 = b ∧
+      ops.Pairwise (fun p q => p.2.1 ≤ q.2.1 ∧ p.2.2 ≤ q.2.2) := by
+  obtain ⟨l, hb, hok⟩ := backtrace_ok fl a b (a.length + b.length + 1) a.length b.length []
+    (Nat.le_refl _) (Nat.le_refl _) (by omega)
+  refine ⟨l, by simpa [editOperations] using hb, ?_, ?_, hok.sorted⟩
+  · rw [hok.len]
+    unfold editDistance
+    exact ((fillTable_spec fl a b).2 a.length b.length (Nat.le_refl _) (Nat.le_refl _)).symm
+  · have := hok.sem [] (by simp)
+    rw [List.append_nil, applyScript_nil] at this
+    rw [this]
+    simp
+
+/-- under `spaces_insert_delete_only` no whitespace is substituted or transposed, and without
+`with_swap` no swap is used -/
+theorem editOperations_flags (fl : EFlags) (a b : List (List Nat)) (ops) (h : editOperations fl a b = some ops) :
+    ∀ p ∈ ops,
+      (p.1 = EKind.swap → fl.swap = true ∧ canReplace fl (a.getD p.2.1 []) (a.getD (p.2.1 + 1) []) = true) ∧
+      (p.1 = EKind.replace → canReplace fl (a.getD p.2.1 []) (b.getD p.2.2 []) = true) :=
+  backtrace_flags fl a b _ _ _ [] ops (Nat.le_refl _) (Nat.le_refl _) h (by simp)
+
+/-- the script is an optimal one: no edit script (in the sense of `Align`) is shorter -/
+theorem editOperations_minimal (fl : EFlags) (a b : List (List Nat)) (n : Nat)
+    (h : Align fl a.reverse b.reverse n) :
+    ∃ ops, editOperations fl a b = some ops ∧ ops.length ≤ n := by
+  obtain ⟨ops, h1, h2, _⟩ := editOperations_ok fl a b
+  exact ⟨ops, h1, by rw [h2]; exact distance_le_script fl a b n h⟩
+
+/-! non-vacuity of `editOperations_ok` / `editOperations_flags`: the script of the example above is the one
+the theorem speaks about, and replaying it gives `b` -/
+example : applyScript [[97], [98], [99]] [[98], [97], [99]] [(.swap, 0, 0)] 0 = [[98], [97], [99]] := by decide
+example : ∃ ops, editOperations { swap := false, sid := true } [[97], [32], [99]] [[98], [97], [99]] = some ops ∧
+    ops.length = 2 ∧ applyScript [[97], [32], [99]] [[98], [97], [99]] ops 0 = [[98], [97], [99]] := by
+  obtain ⟨ops, h1, h2, h3, _⟩ := editOperations_ok { swap := false, sid := true } [[97], [32], [99]] [[98], [97], [99]]
+  exact ⟨ops, h1, by rw [h2]; decide, h3⟩
+example : editOperations { swap := true, sid := true } [[97], [32]] [[32], [97]] =
+    some [(.insert, 0, 0), (.delete, 1, 2)] := by decide
 
 end Tu.C12
